@@ -111,6 +111,15 @@ def match_known(known, prop, failure):
     return None
 
 
+def match_any_known(known, failure):
+    """An open known finding of ANY property that this failure is an instance of."""
+    for k in known.get("open", []):
+        hit = match_known({"open": [k]}, k["property"], failure)
+        if hit:
+            return hit
+    return None
+
+
 # ---------------------------------------------------------------- evidence
 
 def write_evidence(prop, tier, seed, coverage, assumptions, wall_s, violations, extra=None):
